@@ -939,3 +939,27 @@ def safe_block_up_to_highest_continuation(module: Node, modules: list[Node]) -> 
 
     ordered = sorted(modules)
     return set(ordered[bisect_left(ordered, f"{module}.") : bisect_left(ordered, f"{module}.{chr(0x10FFFF)}")])
+
+
+def safe_characters_compared_with_named_separator(module: Node) -> list[str]:
+    parents = []
+    current: list[str] = []
+    for char in module:
+        if char == SEPARATOR:
+            parents.append("".join(current))
+        current.append(char)
+    return parents + [module[:position] for position, char in enumerate(module) if char == SEPARATOR]
+
+
+class _AliasRow:
+    def __init__(self, module: Node, label: str) -> None:
+        self.module = module
+        self.label = label
+
+
+def safe_field_of_selected_element(module: Node, rows: list[_AliasRow]) -> str:
+    try:
+        row = next(r for r in rows if module == r.module or module.startswith(f"{r.module}."))
+    except StopIteration:
+        return module
+    return row.label + module[len(row.module):]
